@@ -130,9 +130,19 @@ def spec_seq_ok(case, out):
     toks = case.split()
     disk = toks[1]
     invs = [toks[i:i + 4] for i in range(2, len(toks), 4)]
+    out, _, ann = out.partition(" ||")
     m = re.match(r"^((?:\d+ )+)\| (\S+)$", out)
     if not m:
         return False
+    # every announced release must be strictly newer than the running version
+    curs = {int(i[0]): bytes.fromhex(i[2]).decode("latin-1") if i[2] != "-" else "" for i in invs}
+    for a in ann.split():
+        t, _, vh = a.partition(":")
+        v = bytes.fromhex(vh).decode("latin-1") if vh != "-" else ""
+        c = curs.get(int(t), "")
+        pc, pv = spec_parse(c), spec_parse(v)
+        if pc is None or pv is None or not (pc < pv):
+            return False
     counts = [int(x) for x in m.group(1).split()]
     if len(counts) != len(invs):
         return False
@@ -211,6 +221,10 @@ def run(chk):
             spec_ok = not c.startswith("EXC") and c != "CRASH"
         if i < 3 or (kind in ("checksum", "seq") and kinds[kind] <= 1):
             chk.sample({"case": line if len(line) < 300 else line[:300] + "...", "decoded": [a[:120] for a in args], "model": m, "impl": c})
+        if kind == "seq":
+            c_full, c = c, c.partition(" ||")[0]
+        else:
+            c_full = c
         if m != c:
             disagreements += 1
             payload = {"kind": kind, "case_line": line, "decoded": args, "model": m, "impl": c,
